@@ -112,15 +112,18 @@ CHECKS = [
      "floats), and EER/AUC equivariance are evaluated on every case, not proved; EER relations are claimed for tie-free scores.",
      "Lean 4 proof about a hand-written model + metamorphic correspondence check", "DESIGN.md §5 C08"),
  chk("C09",
-     "Lean theorem C09_cm proves, for ALL score lists, counts k,m, existing easy counts, 4 configurations and every "
-     "threshold at which the materialised positive is accepted and the materialised negative rejected (C09_side_pos/neg: "
-     "every threshold strictly inside the materialised range), that declaring easy samples gives exactly the matrix of the "
-     "object in which they are materialised as extreme scores. Tied to /repo by running both constructions through the real "
-     "API (both tied to the model with op cm, relation evaluated on the observed matrices). The threshold clause (six "
-     "metrics, linear) and the full/partial AUC clause are evaluated on every case as relations between two real runs.",
-     BASE_NOTE + "Only the matrix clause is proved; threshold (up to a few ulp, within the range of the scored samples) and "
-     "AUC equivalence are evaluated on sampled inputs and listed as statements_only in the evidence.",
-     "Lean 4 proof (matrix clause) + metamorphic correspondence check", "DESIGN.md §5 C09"),
+     "Lean theorems: C09_cm (for ALL score lists, counts k,m, existing easy counts, 4 configurations and every threshold at "
+     "which the materialised positive is accepted and the materialised negative rejected — every threshold strictly inside the "
+     "materialised range, C09_side_pos/neg — declaring easy samples gives exactly the matrix of the object in which they are "
+     "materialised as extreme scores); C09_threshold / C09_threshold_inside (all six metrics, method linear: if the "
+     "materialised object's threshold lies strictly inside the range of the relevant scored samples, the easy-sample object "
+     "returns the same threshold: index targets differ by exactly the number of materialised samples below, via rescale_spec); "
+     "C09_threshold_boundary (at the first/last scored sample the easy-sample object returns the sentinel one ulp outside: why "
+     "thresholds are compared up to a few ulp). Tied to /repo by running both constructions through the real API (both tied to "
+     "the model with op cm, relation evaluated on the observed matrices, thresholds and AUC compared between the two runs).",
+     BASE_NOTE + "The full/partial AUC clause is evaluated on every case as a relation between two real runs (C07 proves the "
+     "AUC of each object equals its Mann-Whitney statistic, the equality of the two statistics is not stated as a theorem).",
+     "Lean 4 proof about a hand-written model + metamorphic correspondence check", "DESIGN.md §5 C09"),
  chk("C15",
      "Lean theorems about the model of roc / _find_support_thresholds (nb_extra_points=None), for ALL sorted score lists, easy "
      "counts, 4 configurations, 8 x_axis names, supplied fnr/fpr/thresholds arrays and nb_points: C15_rates_match (equal lengths, "
@@ -259,6 +262,34 @@ CHECKS = [
      "ordering with smoothing); the float product ratio*n is an oracle checked to be a faithful rounding; callable samplers are "
      "checked in the harness only. Open known finding: smoothing raises ValueError('scale < 0') when a resampled class has IQR -0.0.",
      "Lean 4 proof about a hand-written model with a scripted RNG + differential correspondence check", "DESIGN.md §5 C11"),
+ chk("C18",
+     "Lean theorems over exact rationals, for ALL data rows (key = one code per group column, label flag, score), 4 configurations, "
+     "21 metrics (+ aliases) and thresholds incl. +-inf: C18_rows (the frame's rows are exactly the distinct group-value combinations "
+     "of the data, strictly increasing lexicographically; every data row carries exactly one label; a row is computed from precisely "
+     "the rows carrying its label), C18_entry (entry = the metric of the matrix counted with the decision rule from that group's rows "
+     "= Scores.from_labels + binary-search cm (C01) = pointwise_cm sum; the four cells as counts over the data), C18_partition (group "
+     "matrices add up to the whole-data matrix), C18_by_overall, C18_by_min (+_nan: divisor = smallest entry; 0 -> unchanged; else the "
+     "smallest row becomes exactly 1 and every entry >= 1 for a positive minimum), sbTable_eq / C18_cell / C18_cell_by_overall (the "
+     "frame cell by cell), C18_ci_same_quantity (by_overall: interval = raw interval / d for the replicate-independent divisor d > 0, "
+     "via C13_affine; quantile/BC unconditional, BCa under the homogeneity of the **1.5 oracle), C18_ci_none, C18_ci_ordered_quantile/"
+     "_bc (C13_ordered_*), C18_spec_* (the model satisfies labelsOK/entryOK/normOK/minRowOK/ciOrderedOK with eps = 0), and "
+     "C18_ci_by_min_fails: the by_min analogue of same-quantity (C18_ci_by_min_statement) is REFUTED for the coded behaviour (known "
+     "finding). Tied to /repo by calling the real showbias on random frames (1-4 groups in 1-3 arbitrarily named columns; values with "
+     "'_', spaces, empty strings, unicode, '_'-join collisions; 0/1 and 'x'/'y' labels with foreign labels and any pos_label; ties "
+     "with thresholds; scalar/list/tuple/ndarray/0-d thresholds; 29 metric names; 3 normalisations; bootstrap off / quantile, bc, bca "
+     "with identity, leave-one-out and seeded built-in replacement sampling incl. by_label/by_group), decoding index/columns, "
+     "comparing with the model table, evaluating the Lean predicates on the observed frame, recomputing every entry with numpy from "
+     "the rows carrying the observed label and every interval from the recorded bootstrap samples normalised like the reported value; "
+     "invalid inputs must raise AssertionError / ValueError / TypeError as documented.",
+     BASE_NOTE + "The string<->code map per group column (rank among the sorted distinct values) is built and checked by the harness; "
+     "pandas indexing is not modelled; scipy.stats.norm ppf/cdf and x**1.5 are oracles (C13 hypotheses); BCa ordering is evaluated "
+     "only on the near side of its pole; group values containing NUL characters are outside the run (numpy/pandas truncate them: "
+     "findings/C18_nul_group_value*.json). One open finding in known_findings.json: by_min + bootstrap (the interval belongs to "
+     "another quantity; signature showbias/by_min/bootstrap/.*; refuted statement C18_ci_by_min_statement). The harness keeps two "
+     "descriptive signatures (showbias/bootstrap/all-nan-component/raises, showbias/bootstrap/int-metric-bca/raises) for the two "
+     "utils.bootstrap_ci defects it met through showbias before they were repaired (f1e44e9, ae64b94); corpus/C18/regression_*.json "
+     "pin them.",
+     "Lean 4 proof about a hand-written model + differential correspondence check", "DESIGN.md §5 C18"),
 ]
 
 ALL = [f"C{i:02d}" for i in range(1, 21)]
